@@ -116,6 +116,34 @@ Section SessionProofs.
     now apply N.eqb_eq in E.
   Qed.
 
+  (* an accepted downlink restarts the ADR count and, when confirmed, makes the next uplink owe an ACK *)
+  Theorem accept_ack_owed s cf rg bytes maxp snr ignore_mac n o lay :
+    fcnt_ok s -> bytes_ok bytes = true -> spec_accepts s bytes maxp n -> validate bytes = Ok lay ->
+    handle_rx_session enc mac_fn s cf rg bytes maxp snr ignore_mac = Val o ->
+    ss_owed_ack (ro_session o) = (if is_confirmed (l_type lay) then true else ss_owed_ack s) /\
+    ss_adr_ack_cnt (ro_session o) = 0 /\ ss_confirmed (ro_session o) = ss_confirmed s.
+  Proof.
+    intros Hf Hb (Hwf & Hsz & Hfr & Hmic) Ev. unfold handle_rx_session. rewrite Ev.
+    destruct (Nat.ltb (N.to_nat maxp + 1 + 4) (length bytes)) eqn:Es; [apply PeanoNat.Nat.ltb_lt in Es; lia|].
+    assert (En : next_fcnt_down (ss_fcnt_down s) (v_fcnt bytes) = Some n)
+      by (apply fresh_iff; [exact Hf | now apply wire_cnt_bound | exact Hfr]).
+    rewrite En.
+    assert (Em : validate_mic mac_fn bytes (ss_nwkskey s) n = true).
+    { destruct (validate_layout bytes lay Ev) as (_ & _ & _ & _ & _ & H12 & _).
+      apply (validate_mic_iff mac_fn); [lia | exact Hmic]. }
+    rewrite Em. cbn [negb].
+    unfold decrypt_in_place. rewrite Ev.
+    destruct (Nat.ltb (l_frm_start lay) (l_frm_end lay)).
+    - destruct (if match l_f_port_offset lay with Some off => negb (nthN bytes off =? 0) | None => false end
+                then Some (ss_appskey s) else Some (ss_nwkskey s)) as [key|]; [|intros H; discriminate].
+      destruct (if ignore_mac then _ else _) as [[[cf1 rg1] pend1]| |]; try (intros H; discriminate).
+      destruct (match ignore_mac with true => _ | false => _ end) as [[[cf2 rg2] pend2]| |]; try (intros H; discriminate).
+      intros H. injection H as <-. cbn. repeat split.
+    - destruct (if ignore_mac then _ else _) as [[[cf1 rg1] pend1]| |]; try (intros H; discriminate).
+      destruct (match ignore_mac with true => _ | false => _ end) as [[[cf2 rg2] pend2]| |]; try (intros H; discriminate).
+      intros H. injection H as <-. cbn. repeat split.
+  Qed.
+
   (* accepted counters strictly increase: no (key, counter) is accepted twice; never backwards across roll-overs *)
   Corollary accepted_counter_increases s n l :
     ss_fcnt_down s = Some l -> fresh (ss_fcnt_down s) (n mod 65536) n -> l < n.
